@@ -699,6 +699,14 @@ func checkC20(c *Ctx, r *Report) {
 				seen[k+fmt.Sprint(ef.pos)] = true
 				nAcc++
 				held := ef.guarded
+				if writeKinds[ef.kind] {
+					// a write needs the lock exclusively
+					for _, h := range ef.held {
+						if h == "Root.subLock~shared" {
+							held = false
+						}
+					}
+				}
 				if ef.owner == "" {
 					held = false
 					for _, h := range ef.held {
@@ -722,7 +730,7 @@ func checkC20(c *Ctx, r *Report) {
 						held = true
 					}
 				}
-				r.check("C20.LOCK", k, ef.pos, held, "a subscriber callback runs without the registry lock: a message could be delivered after the Unsubscribe call that removed the subscriber returned, or clean-up run twice")
+				r.check("C20.LOCK", k, ef.pos, held, "a subscriber callback runs without holding the registry lock exclusively (not at all, or only as a reader): a message could be delivered after the Unsubscribe call that removed the subscriber returned, clean-up run twice, or two publishers deliver to one subscriber at the same time and in different orders to different subscribers")
 			}
 		}
 	}
